@@ -446,7 +446,13 @@ func c06shard(r *core.R, shard, n int) {
 				res := c06exec(base, d, []fsx.Fault{f1})
 				r.Eval(1)
 				if len(res.fired) == 0 {
-					r.Count("fault_not_reached", 1)
+					// a planned fault that never fires is a hole in the enumeration (e.g. a random name that is not
+					// canonicalised): only input reads may legitimately vary with map iteration order
+					if kd == "read" || kd == "readat" || kd == "seek" {
+						r.Count("read_fault_not_reached", 1)
+					} else {
+						r.HarnessError("%s: planned fault %s #%d did not fire", d.name, c, k)
+					}
 					continue
 				}
 				if res.fired[0] > firstStage {
